@@ -70,7 +70,6 @@ impl Eq for Rule {}
 
 impl Hash for Rule {
     fn hash<H: Hasher>(&self, state: &mut H) {
-        self.id.hash(state);
         self.resource.hash(state);
     }
 }
